@@ -224,9 +224,86 @@ def meta_oracle(case) -> core.CaseResult:
     return res
 
 
+
+class TwoRegionGrid(OpenGrid):
+    """Metric dx_a for X < 500, dx_b beyond (isotropic per region)."""
+
+    def __init__(self, dxa, dxb, h):
+        super().__init__(dxa, dxa, h)
+        self.dxa, self.dxb = dxa, dxb
+
+    def metric(self, X, Y):
+        d = np.where(np.asarray(X) < 500.0, self.dxa, self.dxb)
+        return d, d.copy()
+
+
+@st.composite
+def swap_cases(draw):
+    return dict(D=draw(logu(1e-4, 1e2)), dt=draw(st.sampled_from([60, 600, 3600])), dxa=draw(logu(50, 2000)),
+                fac=draw(st.sampled_from([3.0, 0.25, 5.0])), steps=draw(st.integers(2, 5)), at=draw(st.integers(1, 4)),
+                n=20000, seed=draw(st.integers(0, 2**31 - 1)), share=draw(st.sampled_from([0.25, 0.5])))
+
+
+def swap_oracle(case) -> core.CaseResult:
+    """Two clouds in regions with different grid spacing; between two steps some particles of the first cloud die
+    and are removed while exactly as many new ones are released in the second region (what a sparse output record
+    plus a release do in one model step).  Every particle's displacement, scaled by its own region's spacing and
+    its own number of steps, is standard normal."""
+    from ladim.state import State
+    from ladim.tracker import Tracker
+
+    e2e.quiet()
+    res = core.CaseResult()
+    n, m, dt, D = case["n"], case["steps"], case["dt"], case["D"]
+    at = min(case["at"], m - 1)
+    dxa, dxb = case["dxa"], case["dxa"] * case["fac"]
+    half = n // 2
+    state = State()
+    state.append(X=np.concatenate([np.full(half, 250.0), np.full(n - half, 750.0)]), Y=np.full(n, 250.0), Z=np.full(n, 5.0))
+
+    class Timer:
+        pass
+
+    Timer.dt = np.timedelta64(dt, "s")
+    tr = Tracker(modules=dict(state=state, grid=TwoRegionGrid(dxa, dxb, 1000.0), time=Timer(), forcing=Still()),
+                 advection="", diffusion=D)
+    tr.rng = np.random.default_rng(case["seed"])
+    k = int(case["share"] * half)
+    X0 = np.array(state.X).copy()
+    born = np.zeros(n, int)
+    for step in range(m):
+        if step == at:
+            al = np.array(state["alive"]).copy()
+            al[:k] = False
+            state["alive"] = al
+            state.compactify()
+            state.append(X=np.full(k, 750.0), Y=np.full(k, 250.0), Z=np.full(k, 5.0))
+            X0 = np.concatenate([X0[k:], np.full(k, 750.0)])
+            born = np.concatenate([born[k:], np.full(k, step)])
+        tr.update()
+    X1 = np.array(state.X)
+    if not res.check(len(X1) == n and bool(np.all(state.alive)), "swap_setup", "particles lost in still water far from any boundary"):
+        return res
+    dx_own = np.where(X0 < 500.0, dxa, dxb)
+    z = (X1 - X0) * dx_own / np.sqrt(2 * D * dt * (m - born))
+    groups = {"first_region_survivors": X0 < 500.0, "second_region_old": (X0 >= 500.0) & (born == 0), "released_at_the_swap": born > 0}
+    for name, sel in groups.items():
+        ng = int(sel.sum())
+        ratio = float(z[sel].var(ddof=1))
+        band = SIG * math.sqrt(2.0 / (ng - 1))
+        res.check(abs(ratio - 1) <= band, "variance_after_swap",
+                  f"{name} ({ng} particles): variance of the displacement in units of sqrt(2*D*t)/dx(own region) is {ratio:.4f}, "
+                  f"band 1 +- {band:.4f} (dx {dxa:.4g} / {dxb:.4g}, swap of {k} before step {at} of {m})")
+        res.check(abs(float(z[sel].mean())) <= SIG / math.sqrt(ng), "bias_after_swap", f"{name}: mean {z[sel].mean():.4g}")
+    res.nontrivial = True
+    return res
+
+
 def shard(part, n, seed, known, nmax):
     stt = core.Stats()
-    if part == "cloud":
+    if part == "swap":
+        core.drive(part, swap_cases(), swap_oracle, n, seed, stt, known)
+    elif part == "cloud":
         core.drive(part, cases(nmax), oracle, n, seed, stt, known)
     else:
         core.drive(part, meta_cases(), meta_oracle, n, seed, stt, known)
@@ -236,7 +313,9 @@ def shard(part, n, seed, known, nmax):
 def run(ctx):
     nmax = ctx.n(100000, 1000000)
     jobs = [("cloud", k, core.subseed(ctx.seed, "c", i), ctx.known_sigs, nmax)
-            for i, k in enumerate(core.split(ctx.n(1400, 8000), 14))]
+            for i, k in enumerate(core.split(ctx.n(1400, 8000), 12))]
+    jobs += [("swap", k, core.subseed(ctx.seed, "s", i), ctx.known_sigs, nmax)
+             for i, k in enumerate(core.split(ctx.n(300, 3000), 2))]
     jobs += [("meta", k, core.subseed(ctx.seed, "m", i), ctx.known_sigs, nmax)
              for i, k in enumerate(core.split(ctx.n(400, 4000), 2))]
     stats = core.Stats()
@@ -255,4 +334,4 @@ def run(ctx):
 
 
 def replay(part, case):
-    return oracle(case) if part == "cloud" else meta_oracle(case)
+    return {"cloud": oracle, "swap": swap_oracle}.get(part, meta_oracle)(case)
